@@ -339,9 +339,20 @@ def r7_check_region(ctx):
     for nm, i, j in (("west>east", 0, 1), ("south>north", 2, 3)):
         strict = raising(lambda c: c == ("cmp", ">", Q.sub(reg, i), Q.sub(reg, j)) or c == ("cmp", "<", Q.sub(reg, j), Q.sub(reg, i)))
         closed = raising(lambda c: c == ("cmp", ">=", Q.sub(reg, i), Q.sub(reg, j)) or c == ("cmp", "<=", Q.sub(reg, j), Q.sub(reg, i)))
+        # the same test written on the DIFFERENCE of the bounds (e - w < 0) is not the same test: for unsigned integer bounds the difference
+        # wraps around to a large positive number exactly when W > E, so the invalid region is accepted
+        def diff_form(c):
+            if c[0] == "cmp" and c[1] in ("<", ">", "<=", ">=") and is_const(c[3]) and c[3][1] == 0 and c[2][0] == "binop" and c[2][1] == "-":
+                return {c[2][2], c[2][3]} == {Q.sub(reg, i), Q.sub(reg, j)}
+            return False
+        by_difference = raising(diff_form)
+        why = "non-strict: degenerate regions are rejected" if closed else "missing"
+        if not strict and not closed and by_difference:
+            why = ("made on the difference of the two bounds: for bounds of an unsigned integer dtype the difference wraps around instead of becoming negative, "
+                   "so %s is accepted (the documented test compares the bounds themselves)" % nm)
         ctx.check("R7", "%s|raises|%s" % (qn, nm), True if strict else (False if closed or not any(p.exit == "raise" for p in paths) else False),
                   "region[%d] > region[%d] raises (strict: degenerate regions pass)" % (i, j),
-                  bad="the %s test is %s" % (nm, "non-strict: degenerate regions are rejected" if closed else "missing"), fn=qn)
+                  bad="the %s test is %s" % (nm, why), fn=qn)
     falls = [p for p in paths if p.normal]
     ctx.check("R7", qn + "|valid-regions-pass", True if falls else False, "a valid region passes without an exception", bad="check_region never returns normally", fn=qn)
     # reachability from the functions that generate from / test against a region
